@@ -2,7 +2,7 @@
    configuration).  Only pinned statements, closed by [exact lemma], with Print Assumptions. *)
 From Coq Require Import List NArith Bool.
 From FT Require Import Model.Base Model.Local Model.Records Model.Spsc Model.Collector Model.System
-     Proofs.SpscProofs Proofs.CollectorProofs Proofs.RecordsProofs Proofs.ApiProofs Proofs.DeliveryProofs Proofs.SystemDeliveryProofs.
+     Proofs.SpscProofs Proofs.CollectorProofs Proofs.RecordsProofs Proofs.ApiProofs Proofs.DeliveryProofs Proofs.SystemDeliveryProofs Proofs.DrainProofs.
 From Coq Require Import Permutation.
 Import ListNotations.
 Open Scope N_scope.
@@ -104,6 +104,27 @@ Theorem C01_every_reachable_default_report_is_exact :
     Permutation (map core3 recs) (flat_map coll_cores (submitted_colls (b_submit (s_batch s)))).
 Proof. exact reachable_default_report_exact. Qed.
 
+(* THE DRAIN.  In any state reached by any history, when a collector cycle begins (pc idle,
+   reporter installed) and runs to the end of its drain -- its pops and abandonment checks
+   interleaved in any way with calls, further pushes and exits of any threads -- every command
+   that was in the ring of a registered thread when the cycle began is in the batch the cycle
+   is about to process.  With [C01_every_reachable_default_report_is_exact] the spans of
+   those commands are reported by that very cycle, each exactly once: a span set pushed
+   before a cycle begins is delivered by that cycle. *)
+Theorem C01_cycle_drains_every_ring :
+  forall dbg ringcap stackcap qcap h0 h,
+    let s := fst (run (sys_init dbg ringcap stackcap qcap) h0) in
+    s_pc s = PIdle -> s_installed s = true -> no_process h ->
+    s_pc (fst (run s (ACBegin :: h))) = PDrained ->
+    forall t c, In (t, c) (ring_commands s) -> in_batch c (s_batch (fst (run s (ACBegin :: h)))).
+Proof. exact reachable_cycle_drains_every_ring. Qed.
+
+(* the registry never lists a thread twice and lists only existing threads, in every
+   reachable state (used above) *)
+Theorem C01_registry_invariant :
+  forall dbg ringcap stackcap qcap h, reg_inv (fst (run (sys_init dbg ringcap stackcap qcap) h)).
+Proof. exact reachable_reg_inv. Qed.
+
 (* non-vacuity: a child span submitted in one cycle and its root (with the commit) in the
    next are both reported, each once *)
 Example C01_two_cycles_example :
@@ -126,3 +147,5 @@ Print Assumptions C01_default_cycles_deliver_exactly.
 Print Assumptions C01_initial_state_meets_the_invariant.
 Print Assumptions C01_default_popped_commands_delivered_exactly.
 Print Assumptions C01_every_reachable_default_report_is_exact.
+Print Assumptions C01_cycle_drains_every_ring.
+Print Assumptions C01_registry_invariant.
